@@ -130,6 +130,10 @@ func corpus() []*caseProg {
 		opcode.LDLOC0, opcode.PUSH1, opcode.LDLOC1, opcode.SETITEM,
 		opcode.PUSHNULL, opcode.STLOC1, opcode.LDLOC0, opcode.PUSHNULL, opcode.STLOC0,
 		opcode.PUSH1, opcode.REMOVE, opcode.PUSH5, opcode.RET)))
+	cs = append(cs, &caseProg{scripts: [][]byte{asm(opcode.PUSH1)}, gasLimit: 0, base: 1, kind: "corpus:gas-zero"})
+	// the last reference to a container is consumed by the instruction that changes it
+	cs = append(cs, mk("last-ref", bigGas, asm(opcode.NEWARRAY0, opcode.PUSH1, opcode.APPEND, opcode.PUSH2, opcode.NEWARRAY, opcode.PUSH0, opcode.PUSH1, opcode.SETITEM,
+		opcode.NEWMAP, opcode.PUSH1, opcode.PUSH1, opcode.SETITEM, opcode.PUSH1, opcode.NEWSTRUCT, opcode.CLEARITEMS, opcode.PUSH1, opcode.NEWARRAY, opcode.PUSH0, opcode.REMOVE, opcode.RET)))
 	// what the limits prescribe for the boundary cases
 	want := map[string][2]any{
 		"corpus:try-16": {"HALT", 17}, "corpus:try-17": {"FAULT", 17},
@@ -138,7 +142,7 @@ func corpus() []*caseProg {
 		"corpus:newarray-2047": {"HALT", 3}, "corpus:newarray-2048": {"FAULT", 2},
 		"corpus:int-overflow": {"FAULT", 2}, "corpus:int-min": {"FAULT", 2}, "corpus:int-min-negate": {"FAULT", 2},
 		"corpus:shl-256": {"FAULT", 5}, "corpus:cat-too-big": {"FAULT", 5}, "corpus:newbuffer-max+1": {"FAULT", 2},
-		"corpus:gas-exact": {"HALT", 101}, "corpus:gas-over": {"FAULT", 100}, "corpus:gas-syscall": {"FAULT", 1},
+		"corpus:gas-exact": {"HALT", 101}, "corpus:gas-zero": {"FAULT", 1}, "corpus:gas-over": {"FAULT", 100}, "corpus:gas-syscall": {"FAULT", 1},
 		"corpus:dynamic-2": {"FAULT", 5}, "corpus:retcount-mismatch": {"FAULT", 4}, "corpus:dynamic-0": {"HALT", 4},
 	}
 	for _, c := range cs {
